@@ -761,7 +761,7 @@ fn fault_bytes(lines: &Value) -> Vec<u8> {
                 out.push(b',');
             }
             first = false;
-            let t0 = f.as_str().unwrap_or("").replace("<NA>", "ñ€");
+            let t0 = f.as_str().unwrap_or("").replace("<NA>", "ñ€").replace("<CM>", "# ñ>€\"ñ&<\\");
             let t = t0.as_str();
             let mut rest = t;
             while let Some(i) = rest.find("<FF>") {
